@@ -1,0 +1,14 @@
+//go:build !verif && !no_workceptor
+// +build !verif,!no_workceptor
+
+package workceptor
+
+// No-op counterparts of the verification hooks in verif_hooks.go (build tag "verif").
+
+type verifStatusSnapshot struct{}
+
+func verifCrashPoint(_ string) {}
+
+func verifSnapshot(_ *StatusFileData) verifStatusSnapshot { return verifStatusSnapshot{} }
+
+func verifStatusWrite(_ string, _ bool, _ verifStatusSnapshot, _ *StatusFileData) {}
